@@ -475,3 +475,19 @@ Proof.
 Qed.
 
 End Engine.
+
+Lemma c03_partial :
+  (forall (b b' : bundler) (k v : nat),
+      nodup_keys (bseq b) -> k <> INTR -> alookup k (bseq b) = Some v -> bseqcopy b' = bseqcopy (b_snapshot b) ->
+      alookup k (bseq (b_rewind b')) = Some v /\ bbundling (b_rewind b') = false) /\
+  (forall (P : Type) (presume : P -> input -> outcome P) (plan_of : nat -> P) (D : Type) (dev : D -> nat -> devmeth -> D * devres)
+          (s : st P D) (l : list msg) (s' : st P D) (o : list obs),
+      state P D s = Paused -> cache P D s = Some l -> bintr_ok (bundlers P D s) = true ->
+      step P presume plan_of D dev s (EvMain AResume) = (s', o) ->
+      plans P D s' = FList l :: plans P D s /\ cache P D s' = Some []).
+Proof.
+  split.
+  - intros b b' k v Hn Hk H Hc. split; [eapply checkpoint_rewind_roundtrip; eassumption | reflexivity].
+  - intros P presume plan_of D dev s l s' o Hs Hc Hb H.
+    destruct (resume_pushes_cache P presume plan_of D dev s l s' o Hs Hc Hb H) as (A & _ & B & _). split; assumption.
+Qed.
